@@ -20,3 +20,5 @@ for n in $names; do
   done
   git -C /repo checkout -- .
 done
+# rebuild after revert: the binaries under /verif/target* must never keep a seeded change compiled in
+(cd /verif/harness && cargo build --quiet 2>/dev/null; cd /repo && RUSTFLAGS="--cfg parol_verif" cargo build --quiet --offline -p parol-ls --target-dir /verif/target-ls 2>/dev/null) || true
